@@ -5,3 +5,8 @@ pub mod sym;
 pub use conc::ConcLab;
 pub use driver::*;
 pub use sym::{SymBridge, SymLab};
+
+/// root of the verification tree (the directory holding `check`); `VERIF_ROOT` overrides
+pub fn root() -> String {
+    std::env::var("VERIF_ROOT").unwrap_or_else(|_| "/verif".to_string())
+}
